@@ -19,7 +19,7 @@ impl Property for C15 {
     fn plan(tier: Tier) -> Plan {
         match tier {
             Tier::Quick => Plan { shards: 16, cases_per_shard: 6500, max_shrink_iters: 300 },
-            Tier::Thorough => Plan { shards: 16, cases_per_shard: 60_000, max_shrink_iters: 600 },
+            Tier::Thorough => Plan { shards: 16, cases_per_shard: 40_000, max_shrink_iters: 600 },
         }
     }
 
